@@ -68,9 +68,17 @@ def header():
             "emit atoms off\n" % (NATOMS, " ".join("1.0" for _ in range(NATOMS))))
 
 
-def cv_def(name, width, period=0.0):
-    """(config text, meta)"""
+def cv_def(name, width, period=0.0, wrap=None):
+    """(config text, meta); wrap: wrapAround of a periodic component (the interval in which its value is reported; distances
+    between values, and so every restraint, do not depend on it)"""
     w = fnum(width)
+    if wrap is not None and name == "phi":
+        return (ctl.cv_phi(width=width).replace("  dihedral {\n", "  dihedral {\n    wrapAround %s\n" % fnum(wrap)),
+                dict(name=name, vtype="periodic", width=width, period=360.0, dim=1, wrap=wrap))
+    if wrap is not None and name == "d2p":
+        txt = ("colvar {\n  name d2p\n  width %s\n  distanceZ {\n    main { atomNumbers 3 }\n    ref { atomNumbers 4 }\n"
+               "    axis (0, 0, 1)\n    period %s\n    wrapAround %s\n  }\n}\n" % (w, fnum(period), fnum(wrap)))
+        return txt, dict(name=name, vtype="periodic", width=width, period=period, dim=1, wrap=wrap)
     if name == "d1":
         return ctl.cv_d1(width=width), dict(name=name, vtype="scalar", width=width, dim=1)
     if name == "d3":
@@ -245,7 +253,10 @@ def gen_case(rng, rtype, vtype, sk, idx):
             w = rng.choice([0.25, 0.5, 1.0])
         else:
             w = rng.choice([0.25, 0.5, 1.0, 2.0])
-        txt, meta = cv_def(n, w, period=8.0)
+        wrap = None
+        if n in ("phi", "d2p") and rng.random() < 0.5:
+            wrap = rng.choice([180.0, 90.0, -120.0]) if n == "phi" else rng.choice([4.0, 2.0, -3.0])
+        txt, meta = cv_def(n, w, period=8.0, wrap=wrap)
         cfg += txt
         cvs.append(meta)
     c["cvs"] = cvs
